@@ -656,10 +656,11 @@ def run(tier, seed):
             key = violation_key(inst, traces[i], v)
             if key not in seen_keys:
                 seen_keys[key] = 0
-                rep = {"group": inst.grp["mut"], "tapes": inst.grp["tapes"], "meas": inst.meas, "ring_level_M": M,
+                rep = {"group": inst.grp["mut"], "tapes": inst.grp["tapes"], "model_keyc": inst.grp.get("keyc"), "meas": inst.meas, "ring_level_M": M,
                        "cache": {"kind": h["kind"], "maxsize": h["ms"], "literal_cache_True": literal},
                        "executions": det, "verdict": v, "model_predicted": {"err": h["err"], "sound": h["sound"]}}
-                ops = [str(t.operations[0 if g0["tapes"][0].get("zero") else -1]) + (" | " + str(t.measurements[0]) if g0["tapes"][0].get("ot") else "")
+                ops = [" ".join((str(t.operations[0 if g0["tapes"][0].get("zero") else -1])
+                                 + (" | " + str(t.measurements[0]) if g0["tapes"][0].get("ot") else "")).split())[:200]
                        for g0 in (inst.grp,) for t in inst.tapes]
                 viol.append(Violation(key=key, detail=(
                     f"{v}: tapes {ops} measuring {inst.meas}; cache={'True' if h['kind'] == 'true' else h['kind']}"
@@ -711,7 +712,8 @@ def replay(path, tier="quick", seed=0):
     rp = json.loads(open(path).read())["replay"]
     M = rp["ring_level_M"]
     dev = qp.device("default.qubit", seed=seed)
-    grp = {"mut": rp["group"], "tapes": rp["tapes"]}
+    grp = {"mut": rp["group"], "tapes": rp["tapes"], "keyc": rp.get("model_keyc")}
+    grp["mut"].setdefault("what", "")
     inst = Instance(0, grp, rp["meas"], M, dev)
     h = {"kind": rp["cache"]["kind"], "ms": rp["cache"]["maxsize"], "execs": [{"batch": x["batch"]} for x in rp["executions"]]}
     t, det, _, _ = run_history(inst, h, rp["cache"]["literal_cache_True"])
